@@ -504,3 +504,116 @@ func checkC19LazyFinalize(c *Ctx) {
 	}
 	c.note("finalize.no-lazy-finalize-of-pattern-constraints: %d sites", n)
 }
+
+// checkC19AssertedVertexNotWritten: Go values are converted into CUE by
+// internal/core/convert; a cue.Value nested in the Go data arrives there as an
+// adt.Value interface holding the *adt.Vertex of that value — a vertex the
+// caller still shares with every other goroutine using the value. Such a
+// vertex may be copied (`a := *arc`) but not written: a field assignment or a
+// mutating method call through a variable bound by a type assertion (or type
+// switch) to *adt.Vertex is an in-place write to shared structure.
+func checkC19AssertedVertexNotWritten(c *Ctx) {
+	const rule = "cow.asserted-vertex-not-written"
+	mutators := map[string]bool{"AddConjunct": true, "SetValue": true, "ForceDone": true, "InsertConjunct": true, "AddStruct": true,
+		"UpdateStatus": true, "Finalize": true, "CompleteArcs": true, "AddErr": true, "SetRealArc": true, "MatchAndInsert": true}
+	nBound := 0
+	for _, pr := range []string{"internal/core/convert"} {
+		p := c.pkg(pr)
+		for _, f := range c.funcs(p) {
+			info := f.Info()
+			isVertexPtr := func(t types.Type) bool {
+				pt, ok := t.(*types.Pointer)
+				if !ok {
+					return false
+				}
+				n, ok := types.Unalias(pt.Elem()).(*types.Named)
+				return ok && n.Obj().Name() == "Vertex" && n.Obj().Pkg() != nil && strings.HasSuffix(n.Obj().Pkg().Path(), adtP)
+			}
+			bound := map[types.Object]token.Pos{}
+			ast.Inspect(f.Body, func(x ast.Node) bool {
+				switch s := x.(type) {
+				case *ast.AssignStmt:
+					if len(s.Rhs) == 1 {
+						if ta, ok := ast.Unparen(s.Rhs[0]).(*ast.TypeAssertExpr); ok && ta.Type != nil && isVertexPtr(info.TypeOf(ta.Type)) {
+							if o := identObj(info, s.Lhs[0]); o != nil {
+								bound[o] = s.Pos()
+							}
+						}
+					}
+				case *ast.TypeSwitchStmt:
+					for _, cl := range s.Body.List {
+						cc := cl.(*ast.CaseClause)
+						if o := info.Implicits[cc]; o != nil && isVertexPtr(o.Type()) {
+							bound[o] = cc.Pos()
+						}
+					}
+				}
+				return true
+			})
+			if len(bound) == 0 {
+				continue
+			}
+			nBound += len(bound)
+			rootObj := func(e ast.Expr) types.Object {
+				for {
+					switch x := ast.Unparen(e).(type) {
+					case *ast.SelectorExpr:
+						e = x.X
+					case *ast.IndexExpr:
+						e = x.X
+					case *ast.StarExpr:
+						e = x.X
+					case *ast.Ident:
+						return info.ObjectOf(x)
+					default:
+						return nil
+					}
+				}
+			}
+			var bad []string
+			var pos token.Pos
+			ast.Inspect(f.Body, func(x ast.Node) bool {
+				switch s := x.(type) {
+				case *ast.AssignStmt:
+					for _, l := range s.Lhs {
+						if _, isIdent := ast.Unparen(l).(*ast.Ident); isIdent {
+							continue
+						}
+						if o := rootObj(l); o != nil {
+							if _, ok := bound[o]; ok {
+								bad = append(bad, exprString(l)+" is assigned")
+								pos = s.Pos()
+							}
+						}
+					}
+				case *ast.IncDecStmt:
+					if o := rootObj(s.X); o != nil {
+						if _, ok := bound[o]; ok {
+							bad = append(bad, exprString(s.X)+" is modified")
+							pos = s.Pos()
+						}
+					}
+				case *ast.CallExpr:
+					if sel, ok := s.Fun.(*ast.SelectorExpr); ok && mutators[sel.Sel.Name] {
+						if id, ok := ast.Unparen(sel.X).(*ast.Ident); ok {
+							if _, isB := bound[info.ObjectOf(id)]; isB {
+								bad = append(bad, exprString(s.Fun)+" is called")
+								pos = s.Pos()
+							}
+						}
+					}
+				}
+				return true
+			})
+			if pos == token.NoPos {
+				for _, bp := range bound {
+					pos = bp
+				}
+			}
+			c.check(rule, f.Name, pos, len(bad) == 0,
+				fmt.Sprintf("a *adt.Vertex obtained by type assertion from an incoming adt.Value is the vertex of a cue.Value the caller still shares; it may be copied but not written in place (%s)", strings.Join(bad, "; ")))
+		}
+	}
+	c.check(rule, "scan-coverage", token.NoPos, nBound >= 2,
+		fmt.Sprintf("the scan found %d variables bound to an incoming *adt.Vertex in internal/core/convert (expected at least 2)", nBound))
+}
